@@ -5,6 +5,7 @@ C10 — a container reads the same however its packs are packaged.
 import JubakoModel.Model.Container
 import JubakoModel.Lemmas.Container
 import JubakoModel.Lemmas.FuncsLookup
+import JubakoModel.Lemmas.FuncsOpen
 
 namespace Jubako
 
@@ -129,5 +130,31 @@ theorem c10_lookup_chain_is_source_chain :
           [(entryPacks.find? (fun p => p.uuid == uuid)).map (fun p => (⟨entryFile, p⟩ : Located)), r] =
         some (locate fs entryFile entryPacks uuid location)) :=
   ⟨fun a => gen_chainedLocate a, locate_is_chain⟩
+
+/-- **Looking a pack up in the file system follows the source**: `fsLocate` of the container model is
+    `FsLocator::locate` as translated from `reader/locator.rs` on every run — the recorded location must name a
+    regular file, which is opened blindly and searched by uuid. -/
+theorem c10_fs_locate_is_source_locate (fs : FS) (uuid : Bytes) (location : String) :
+    fsLocate fs uuid location =
+      Generated.fsLocatorLocate (decide (location ≠ "" ∧ (fs.get location).isSome)) (Outcome.ok ((fs.get location).getD []))
+        (fun f => blindOpen f)
+        (fun packs => (packs.find? (fun p => p.uuid == uuid)).map (fun p => (⟨location, p⟩ : Located))) :=
+  gen_fsLocate fs uuid location
+
+/-- **Opening a file without knowing what it holds follows the source**: `blindOpen` of the container model is
+    `open_as_container_pack` (`reader/jubako.rs`) as translated on every run, applied to the model's header
+    parses: header at 0 (a version mismatch is reported at once), else the mirrored tail for files of at least 64
+    bytes, the declared size bounded by the file, the pack at `file size − declared size`; a container pack is
+    opened as such, any other pack stands alone under its uuid. -/
+theorem c10_blind_open_is_source_open (f : Bytes) :
+    blindOpen f =
+      Generated.openAsContainerPack f.length
+        (if f.length < 60 then .err .format else PackHeader.decode (f.take 60))
+        (do let hd ← readBlock f 0 60; PackHeader.decode hd)
+        (do let hd ← readBlock (slice f (f.length - 64) 64).reverse 0 60; PackHeader.decode hd)
+        (fun origin size => if origin + size ≤ f.length then .ok (origin, size) else .err .format)
+        (fun r => containerPackOpen f r.1 r.2)
+        (fun r uuid => [⟨uuid, r.1, r.2⟩]) :=
+  gen_blindOpen f
 
 end Jubako
